@@ -23,7 +23,7 @@ RULE = (
 ASSUMPTIONS = [
     "cases where a query's k-th and (k+1)-th brute-force distances (or two of its first k) differ by less than 1e-7 relative are filtered (ties)",
     "query ids are unique within the first list (rows are matched by query id and order of appearance = rank)",
-    "tolerances: distances/offsets 1e-9 relative (1e-6 for the moved configuration), angular distance 2e-5 degrees, matrices 1e-6",
+    "tolerances: distances/offsets 1e-9 relative (1e-6 for the moved configuration), angular distance 1e-9 degrees (2e-5 within 1 degree of 0 or 180), matrices 1e-9 (1e-6 within 1e-4 rad of gimbal lock; 1e-6 after the rigid motion)",
 ]
 BUDGET = {"quick": {"examples": 450, "seconds": 85}, "thorough": {"examples": 2500, "seconds": 540}}
 
@@ -220,15 +220,17 @@ def run(case):
             return out
         rt_ = case.get("rotation_type", "angular_distance")
         want_a = e["ang"] if rt_ == "angular_distance" else e["cone"]
-        if not (abs(r["angular_distance"] - want_a) <= 2e-5):
+        # arccos-type round-off only matters at the two ends of the range; in between the angle is held to 1e-9 degrees
+        if not (abs(r["angular_distance"] - want_a) <= (1e-9 if 1.0 < want_a < 179.0 else 2e-5)):
             out.fail("angular_distance_differs" if rt_ == "angular_distance" else "cone_distance_differs", f"query {key}: {r['angular_distance']!r} vs {want_a!r}")
             return out
         z = np.array([r["rot_x"], r["rot_y"], r["rot_z"]])
-        if np.abs(z - e["rel"][:, 2]).max() > 1e-6:
+        near = np.hypot(e["rel"][2, 0], e["rel"][2, 1]) < 1e-4  # Euler extraction of the relative rotation is ill-conditioned only there
+        if np.abs(z - e["rel"][:, 2]).max() > (1e-6 if near else 1e-9):
             out.fail("relative_orientation_z_axis_differs", f"query {key}: {z.tolist()} vs {e['rel'][:, 2].tolist()}")
             return out
         M = oracle.R_cc(r["phi"], r["theta"], r["psi"])
-        if np.abs(M - e["rel"]).max() > 1e-6:
+        if np.abs(M - e["rel"]).max() > (1e-6 if near else 1e-9):
             out.fail("relative_orientation_angles_differ", f"query {key}: error {np.abs(M - e['rel']).max():.2e}")
             return out
     # same extraction positions, refined shifts (different per particle): the answer must follow the complete positions
